@@ -34,7 +34,7 @@ CHECKS = {
  'C14': dict(tech='bounded exhaustive enumeration of fault-free histories with exact quiescence and a walk of the storage roots',
    text='All fault-free histories to the stated depth; epilogue: end open transactions, exact quiescence, one GC pass, quiescence; the roots must hold exactly one content file per readable key with its bytes, directly inside <root>/<uuid>/; variant with Close while work is pending, new process, reopen; plus one transaction issuing n = 1..24 (thorough 64) writes in six shapes, and sparse large sizes up to 1025 (2049), under the same disk oracle.', note=seq_note, ref='C14'),
  'C15': dict(tech='stateless model checking of the implementation with the Go race detector as per-execution monitor (scheduler hand-offs hidden, shim primitives annotated with the real happens-before edges)',
-   text='Every schedule with at most 1 (quick) / 2 (thorough) deviations of 32 programs (the C06/C07/C08 programs, first-use, two-root and seeded-state programs, worker-pool and readWriter programs), each execution monitored by the race detector, and a release-points pass (a scheduling point after every Unlock) over three transaction programs and the C07 programs; any report in fs_db code is a violation.', note='Only memory touched by fs_db code and the instrumented glebziz/containers in explored executions; Badger is the in-memory shim, gRPC handlers are not run under the scheduler; sequentially consistent executions only.', ref='C15'),
+   text='Every schedule with at most 1 (quick) / 2 (thorough) deviations of 32 programs (the C06/C07/C08 programs, first-use, two-root and seeded-state programs, worker-pool and readWriter programs), each execution monitored by the race detector, and a release-points pass (a scheduling point after every Unlock) over three transaction programs and the C07 programs; bulk programs (a transaction of 1001 / 1002 writes rolled back / committed with two pool workers) and the round-robin default schedule of every client program at bound 0; any report in fs_db code is a violation.', note='Only memory touched by fs_db code and the instrumented glebziz/containers in explored executions; Badger is the in-memory shim, gRPC handlers are not run under the scheduler; sequentially consistent executions only.', ref='C15'),
  'C16': dict(tech='stateless model checking of the implementation: deviation-bounded exhaustive schedule exploration of the real worker pool',
    text='All schedules with at most 2 (quick) / 3 (thorough) deviations of 15 closed programs over wpool.New/Run/Send/Sched/Stop with gated jobs, two-worker variants and a writer-preference pass (one without bound, one - a Stop racing a deferred Send followed by a second life of the pool - with early timers at no cost): accepted jobs run exactly once at quiescence, Send returns while no worker is free, Stop waits for in-flight jobs, nothing starts after Stop, no panic, deadlock or leaked thread.', note='Virtual time (Send timer fires when nothing else can run, or early as a deviation); interleavings at visible operations; race freedom between them is C15.', ref='C16'),
 }
